@@ -471,7 +471,13 @@ def run_job(job, cpath, info, tier, defines=(), subdir=None, witness_mode=False,
         res['checker_cmd'] = ' '.join(cmd)
         rc, so, se, dt = run_cmd(cmd, timeout or job.timeout or CBMC_TIMEOUT, log)
         res['solver_s'] = round(dt, 2)
-        open(os.path.join(jdir, 'cbmc.json'), 'w').write(so)
+        if os.environ.get('VF_KEEP'):
+            open(os.path.join(jdir, 'cbmc.json'), 'w').write(so)
+        for f_ in (a, b):
+            try:
+                os.remove(f_)
+            except OSError:
+                pass
         if rc == -999:
             res['reason'] = 'cbmc timeout after %ss' % (job.timeout or CBMC_TIMEOUT)
             return res
@@ -506,7 +512,15 @@ def run_job(job, cpath, info, tier, defines=(), subdir=None, witness_mode=False,
             ob = {'name': r.get('property'), 'desc': r.get('description'), 'status': r.get('status'),
                   'line': (r.get('sourceLocation') or {}).get('line'), 'fn': (r.get('sourceLocation') or {}).get('function')}
             if r.get('status') == 'FAILURE' and 'trace' in r:
-                ob['trace'] = r['trace']
+                # keep what witness extraction and the replay file need: ghost / witness assignments, the failure step,
+                # and the tail of the trace (full traces are tens of MB per job)
+                tr_ = r['trace']
+                keep = [s_ for s_ in tr_[:-80] if s_.get('stepType') == 'failure' or
+                        (s_.get('stepType') == 'assignment' and str(s_.get('lhs', '')).startswith(('w_', 'g_')))]
+                slim = []
+                for s_ in keep + tr_[-80:]:
+                    slim.append({k_: s_[k_] for k_ in ('stepType', 'lhs', 'value', 'reason', 'property', 'sourceLocation') if k_ in s_})
+                ob['trace'] = slim
             obs.append(ob)
         res['obligations'] = obs
         if not obs:
@@ -551,7 +565,7 @@ def classify(ob, res, job):
                 return c.tag, (c.props or job.props), 'callee-precondition'
     if '.pointer_dereference.' in name or '.pointer_arithmetic.' in name or '.array_bounds.' in name \
             or '.pointer_primitives.' in name or 'pointer' in name.split('.')[-2:-1]:
-        return 'memory-safety', ('C03',), 'pointer'
+        return 'memory-safety', (('C03',) if 'C03' in job.props else job.props), 'pointer'
     if '.overflow.' in name:
         return 'arithmetic-overflow', job.props, 'overflow'
     if 'repo_assert' in desc:
@@ -569,7 +583,24 @@ def classify(ob, res, job):
     return 'other', job.props, 'other'
 
 
+def trim_cache(limit_mb=1500):
+    d = os.path.join(WORK, 'cache')
+    try:
+        files = [(os.path.getmtime(os.path.join(d, f)), os.path.getsize(os.path.join(d, f)), os.path.join(d, f)) for f in os.listdir(d)]
+    except OSError:
+        return
+    total = sum(x[1] for x in files)
+    for mt, sz, path in sorted(files):
+        if total <= limit_mb * 1024 * 1024:
+            break
+        try:
+            os.remove(path); total -= sz
+        except OSError:
+            pass
+
+
 def run_jobs(jobs, groups, tier, progress=None):
+    trim_cache()
     """groups: {name: (cpath, info)}"""
     out = []
     with ThreadPoolExecutor(max_workers=NCPU) as ex:
